@@ -98,11 +98,115 @@ Qed.
 Lemma ids_bpush_spec : forall b, ids (b_sv (bpush_spec b)) = ids (b_sv b).
 Proof. intros b. unfold bpush_spec. rewrite ids_absorb. apply ids_push_all. Qed.
 
+(* ------------------------------------------------------------------ the supersede variant of SETDATA: same shape *)
+
+(* who is attached, and which gateways exist with which reading state *)
+Definition gshape (l : list gw) : list (sid * bool) := map (fun g => (g_sid g, g_blocked g)) l.
+Definition shape (b : bserver) : list sid * list (sid * bool) := (ids (b_sv b), gshape (b_gws b)).
+
+Lemma gshape_map : forall (f : gw -> gw) l,
+  (forall g, g_sid (f g) = g_sid g) -> (forall g, g_blocked (f g) = g_blocked g) -> gshape (map f l) = gshape l.
+Proof.
+  intros f l Hs Hb. unfold gshape. rewrite map_map. apply map_ext. intros g. rewrite Hs, Hb. reflexivity.
+Qed.
+
+Lemma reads_gshape : forall l l' w, gshape l = gshape l' -> reads l w -> reads l' w.
+Proof.
+  induction l as [|x l IH]; intros l' w Hsh [g [Hg Hbl]]; cbn [find_gw] in Hg.
+  - discriminate.
+  - destruct l' as [|x' l']; [discriminate|]. unfold gshape in Hsh. cbn [map] in Hsh.
+    inversion Hsh as [[Hsid Hblk Hrest]].
+    destruct (N.eqb (g_sid x) w) eqn:E.
+    + inversion Hg; subst g. exists x'. cbn [find_gw]. rewrite <- Hsid, E. split; [reflexivity|]. rewrite <- Hblk. exact Hbl.
+    + destruct (IH l' w Hrest (ex_intro _ g (conj Hg Hbl))) as [g' [Hg' Hbl']].
+      exists g'. cbn [find_gw]. rewrite <- Hsid, E. split; assumption.
+Qed.
+
+Lemma shape_absorb : forall b sv, shape (absorb b sv) = (ids sv, gshape (b_gws b)).
+Proof.
+  intros b sv. unfold shape. rewrite ids_absorb. f_equal. unfold absorb. cbn [b_gws].
+  apply gshape_map; intros g; destruct (find_session (sv_sessions sv) (g_sid g)); reflexivity.
+Qed.
+
+Lemma shape_set_queue : forall b s q, shape (set_queue b s q) = shape b.
+Proof.
+  intros b s q. unfold shape, set_queue, upd_gw. cbn [b_sv b_gws]. f_equal.
+  apply gshape_map; intros g; destruct (N.eqb (g_sid g) s); reflexivity.
+Qed.
+
+Lemma shape_prune_for : forall b s p, shape (prune_for b s p) = shape b.
+Proof.
+  intros b s p. unfold prune_for. destruct (get_session (b_sv b) s) as [ss|]; [|reflexivity].
+  match goal with |- context [match ?x with Some _ => _ | None => _ end] => destruct x end.
+  - unfold shape, with_sv. cbn [b_sv b_gws]. rewrite ids_upd_session by (intros; reflexivity). reflexivity.
+  - apply shape_set_queue.
+Qed.
+
+Lemma shape_bnca_set : forall b s p d sup, shape (bnca_set b s p d sup) = shape b.
+Proof.
+  intros b s p d sup. unfold bnca_set. cbv zeta. rewrite shape_absorb, ids_node_changed_aux.
+  destruct sup; [|reflexivity]. exact (shape_prune_for b s p).
+Qed.
+
+Lemma shape_bnode_changed : forall b s p d old sup, shape (bnode_changed b s p d old sup) = shape b.
+Proof.
+  intros b s p d old sup. unfold bnode_changed. destruct (get_session (b_sv b) s) as [ss|]; [|reflexivity].
+  cbv zeta. outer_if; [|apply shape_bnca_set].
+  destruct old; repeat outer_if; try reflexivity; try apply shape_bnca_set.
+  rewrite shape_absorb, ids_node_changed_aux. reflexivity.
+Qed.
+
+Lemma shape_bnotify_changed : forall b by_ p d old sup, shape (bnotify_changed b by_ p d old sup) = shape b.
+Proof.
+  intros b by_ p d old sup. unfold bnotify_changed.
+  destruct (find_node (sv_tree (b_sv b)) p) as [n|]; [|reflexivity].
+  generalize (n_subs n). intros l. revert b. induction l as [|kc l IH]; intros b; cbn [fold_left].
+  - reflexivity.
+  - rewrite IH. outer_if; [reflexivity|]. apply shape_bnode_changed.
+Qed.
+
+Lemma shape_with_sv_tree : forall b t, shape (with_sv b (set_tree (b_sv b) t)) = shape b.
+Proof. reflexivity. Qed.
+
+Lemma shape_bset_data_loop : forall cl b by_ pp d dc dov q sup, shape (bset_data_loop b by_ pp cl d dc dov q sup) = shape b.
+Proof.
+  induction cl as [|k rest IH]; intros b by_ pp d dc dov q sup; cbn [bset_data_loop].
+  - reflexivity.
+  - cbv zeta. destruct (find_node (sv_tree (b_sv b)) (pp ++ [k])) as [n|].
+    + destruct rest as [|k2 rest2].
+      * destruct dov; [reflexivity|]. destruct q; [reflexivity|]. rewrite shape_bnotify_changed. reflexivity.
+      * apply IH.
+    + destruct dc; [reflexivity|]. outer_if; [reflexivity|].
+      destruct rest as [|k2 rest2].
+      * destruct q; [reflexivity|]. rewrite shape_bnotify_changed. reflexivity.
+      * rewrite IH. destruct q; [reflexivity|]. rewrite shape_absorb, ids_notify_changed. reflexivity.
+Qed.
+
+Lemma shape_bsetsup : forall (items : list (list name * payload)) flags b s,
+  shape (fold_left (fun b' it =>
+                      match get_session (b_sv b') s with
+                      | Some ss' => match fst it with
+                                    | [] => b'
+                                    | _ => bset_data_loop b' (s_id ss') (session_dir ss') (fst it) (snd it)
+                                             (flag_set flags c_SETDATANODE_FLAG_DONTCREATENODE)
+                                             (flag_set flags c_SETDATANODE_FLAG_DONTOVERWRITEDATA)
+                                             (flag_set flags c_SETDATANODE_FLAG_QUIET) true
+                                    end
+                      | None => b'
+                      end) items b) = shape b.
+Proof.
+  induction items as [|it items IH]; intros flags b s; cbn [fold_left].
+  - reflexivity.
+  - rewrite IH. destruct (get_session (b_sv b) s) as [ss'|]; [|reflexivity].
+    destruct (fst it); [reflexivity|apply shape_bset_data_loop].
+Qed.
+
 Lemma ids_bhandle_spec : forall c nest b s, ids (b_sv (bhandle_spec fx nest b s c)) = ids (b_sv b).
 Proof.
-  induction c as [c0|t| |code what|keys|ids0|id keys|l IHl] using bcmd_ind'; intros nest b s;
+  induction c as [c0|flags items|t| |code what|keys|ids0|id keys|l IHl] using bcmd_ind'; intros nest b s;
     cbn [bhandle_spec]; destruct (get_session (b_sv b) s) as [ss|]; try reflexivity.
   - rewrite ids_absorb. apply ids_handle.
+  - exact (f_equal fst (shape_bsetsup items flags b s)).
   - destruct (Nat.ltb nest max_batch_nest); [|reflexivity].
     revert b. induction IHl as [|c' r Hc' _ IHr]; intros b.
     + reflexivity.
@@ -116,9 +220,10 @@ Proof. intros b w H. unfold bpush_spec. apply reads_absorb. exact H. Qed.
 Lemma reads_bhandle_spec : forall c nest b s w, s <> w ->
   reads (b_gws b) w -> reads (b_gws (bhandle_spec fx nest b s c)) w.
 Proof.
-  induction c as [c0|t| |code what|keys|ids0|id keys|l IHl] using bcmd_ind'; intros nest b s w Hne Hr;
+  induction c as [c0|flags items|t| |code what|keys|ids0|id keys|l IHl] using bcmd_ind'; intros nest b s w Hne Hr;
     cbn [bhandle_spec]; destruct (get_session (b_sv b) s) as [ss|]; try exact Hr.
   - apply reads_absorb. exact Hr.
+  - apply (reads_gshape (b_gws b)); [|exact Hr]. symmetry. exact (f_equal snd (shape_bsetsup items flags b s)).
   - unfold enqueue, upd_gw. cbn [b_gws]. apply reads_map_other; [exact Hne|reflexivity|exact Hr].
   - unfold enqueue, upd_gw. cbn [b_gws]. apply reads_map_other; [exact Hne|reflexivity|exact Hr].
   - unfold set_queue, upd_gw. cbn [b_gws]. apply reads_map_other; [exact Hne|reflexivity|exact Hr].
